@@ -335,7 +335,7 @@ theorem runT_wrapped_general (w : Str) (hl : lower w = w) (hv : AHP.isVoid w = f
 
 /-! ### the shape of `wrapToks` -/
 
-private theorem all_of_dropWhile_nil (p : Char → Bool) : ∀ l : Str, l.dropWhile p = [] → ∀ x ∈ l, p x = true := by
+theorem all_of_dropWhile_nil (p : Char → Bool) : ∀ l : Str, l.dropWhile p = [] → ∀ x ∈ l, p x = true := by
   intro l
   induction l with
   | nil => intro _ x hx; simp at hx
@@ -348,7 +348,7 @@ private theorem all_of_dropWhile_nil (p : Char → Bool) : ∀ l : Str, l.dropWh
       · exact ih h x e
     · simp [List.dropWhile_cons, hc] at h
 
-private theorem dropWhile_nil_of_all (p : Char → Bool) : ∀ l : Str, (∀ x ∈ l, p x = true) → l.dropWhile p = [] := by
+theorem dropWhile_nil_of_all (p : Char → Bool) : ∀ l : Str, (∀ x ∈ l, p x = true) → l.dropWhile p = [] := by
   intro l
   induction l with
   | nil => intro _; rfl
